@@ -518,7 +518,7 @@ def normalizeRoots (before : Forest) (after : Forest) (keepFresh : Bool) : Fores
   let held (r : Tree) : Bool := r.ids.any (fun i => decide (i < before.nextId))
   let surviving := oldRootIds.filterMap (fun i => after.roots.find? (fun r => r.id? == some i))
   let others := after.roots.filter (fun r => !isOld r && (keepFresh || !fresh r || held r))
-  { after with roots := surviving ++ sortByIdx key others }
+  { after with roots := surviving ++ sortByIdx key others, pool := [] }
 
 def stepN (cfg : Cfg) (f : Forest) (notifyOn : Bool) (op : Op) : Res :=
   let r := step cfg f notifyOn op
